@@ -8,4 +8,6 @@ mkdir -p .build evidence replays
 # Warm the build cache: compile the repository's packages and their test
 # dependencies once with the checking toolchain.
 (cd /repo && go1.26 build ./... && go1.26 test -vet=off -count=1 -run '^$' ./internal/... >/dev/null 2>&1 || true)
+# The race parts (C05, C19) build with the race detector (needs cgo): warm that variant too.
+(cd /repo && CGO_ENABLED=1 go1.26 test -race -vet=off -count=1 -run '^$' ./internal/corerad ./internal/netstate >/dev/null 2>&1 || true)
 echo "setup ok"
